@@ -425,6 +425,8 @@ var contentCatalogue = [][]byte{
 	[]byte("200101000060Z"), []byte("2001010000+0100"),
 	// BMP / odd
 	[]byte("\x00a\x00b"), []byte("\x00a\x00\x00"), []byte("\xd8\x00"),
+	// a surrogate pair (one character beyond the basic plane), a reversed pair, a pair between two letters
+	[]byte("\xd8\x3d\xde\x00"), []byte("\xde\x00\xd8\x3d"), []byte("\x00a\xd8\x3d\xde\x00\x00b"),
 }
 
 var (
@@ -538,6 +540,12 @@ func singleMutations(b []byte, thorough bool, emit func(m []byte, what string)) 
 					}
 					one(elem([]byte{tg}, body), "retag-universal")
 				}
+				// the string types nothing marshals to (BMPString, T61String) with contents of their own: ASCII and a letter
+				// beyond Latin-1 as 16-bit units, a surrogate pair (one character), a reversed pair, a pair among letters
+				for _, c := range [][]byte{[]byte("\x00a\x00b"), []byte("\x01\x41\x00z"), []byte("\xd8\x3d\xde\x00"), []byte("\xde\x00\xd8\x3d"), []byte("\x00a\xd8\x3d\xde\x00\x00b"), []byte("\xd8\x3d")} {
+					one(elem([]byte{30}, c), "retag-bmpstring-with-contents")
+				}
+				one(elem([]byte{20}, []byte("M\xfcller")), "retag-t61string-with-contents")
 			}
 			one(elem([]byte{0xa0}, e), "wrap-explicit-0")
 		}
